@@ -11,6 +11,15 @@ open Gotree
 theorem starOf_kids (t : T) : (starOf t).kids = (t.splits.filter (·.tip)).map fun s =>
     ((⟨s.e.len, NIL, NIL, [], -1⟩ : EdgeD), T.leaf (s.below.headD "")) := rfl
 
+theorem star_splits_tip (t : T) : ∀ s ∈ (starOf t).splits, s.tip = true := by
+  intro s hs
+  unfold T.splits at hs
+  rw [starOf_kids] at hs
+  obtain ⟨et, het, hse⟩ := mem_splitsL.1 hs
+  obtain ⟨x, _, rfl⟩ := List.mem_map.1 het
+  simp only [blk, T.leaf, T.leaves, T.splitsBelow, splitsL, List.mem_singleton] at hse
+  rw [hse]; rfl
+
 theorem star_splits_singleton (t : T) : ∀ s ∈ (starOf t).splits, ∃ a, s.below = [a] := by
   intro s hs
   unfold T.splits at hs
@@ -28,7 +37,14 @@ theorem star_loopInv (first : T) (hnd : first.tipNames.Nodup) (hdeg : 2 ≤ firs
   have ht := tipNames_eq_leaves (starOf first) hk
   have hst := starOf_tipNames first h2
   have hft := tipNames_eq_leaves first hdeg
-  refine ⟨hk, ?_, ?_, ?_, by simp, by simp⟩
+  refine ⟨hk, ?_, ?_, ?_, by simp, by simp, ?_⟩
+  rotate_left 3
+  · have : ni (starOf first).splits = 0 := by
+      unfold ni
+      rw [List.length_eq_zero_iff, List.filter_eq_nil_iff]
+      intro s hs
+      simp [star_splits_tip first s hs]
+    omega
   · rw [← ht, hst, ← hft]; exact hnd
   · rw [ht]
   · intro s hs; exact Or.inl (star_splits_singleton first s hs)
@@ -48,5 +64,103 @@ theorem consensus_loop (first : T) (alltips : List String) (n : Nat) (sel : List
   have := loop_spec (starOf first).tipNames alltips n hT (by rw [ha]; exact hT) (by rw [ha]; exact fun a h => h)
     sel [] (starOf first) (by simpa using hsel) (by simpa [innerRows, tipRows] using star_loopInv first hnd hdeg h2)
   simpa using this
+
+/-! ## as many inner branches as inner rows -/
+
+theorem mem_innerRows' {alltips : List String} {n : Nat} {sel : List Entry} {p : List String × Rat × Rat} :
+    p ∈ innerRows alltips n sel ↔ ∃ x ∈ sel, 2 ≤ (rowNames alltips x).length ∧
+      p = (rowNames alltips x, x.len / (x.count : Rat), (x.count : Rat) / (n : Rat)) := by
+  unfold innerRows
+  simp only [List.mem_map, List.mem_filter, decide_eq_true_eq]
+  constructor
+  · rintro ⟨x, ⟨hx, h2⟩, rfl⟩; exact ⟨x, hx, h2, rfl⟩
+  · rintro ⟨x, hx, h2, rfl⟩; exact ⟨x, ⟨hx, h2⟩, rfl⟩
+
+theorem length_le_of_witness {α β : Type} [DecidableEq β] (Q : α → β → Prop) (D : α → α → Prop) :
+    ∀ (L : List α) (M : List β), L.Pairwise D → (∀ x ∈ L, ∃ w ∈ M, Q x w) →
+      (∀ x y w, D x y → Q x w → Q y w → False) → L.length ≤ M.length
+  | [], _, _, _, _ => Nat.zero_le _
+  | x :: L, M, hpw, hw, hinj => by
+    rw [List.pairwise_cons] at hpw
+    obtain ⟨w, hwM, hq⟩ := hw x (by simp)
+    have := length_le_of_witness Q D L (M.erase w) hpw.2
+      (by
+        intro y hy
+        obtain ⟨w', hw'M, hq'⟩ := hw y (by simp [hy])
+        have hne : w' ≠ w := fun e => hinj x y w (hpw.1 y hy) hq (e ▸ hq')
+        exact ⟨w', (List.mem_erase_of_ne hne).2 hw'M, hq'⟩)
+      hinj
+    rw [List.length_erase_of_mem hwM] at this
+    have hpos : 0 < M.length := List.length_pos_of_mem hwM
+    simp only [List.length_cons]; omega
+
+theorem allPairsOK_pairwise (tips : List String) : ∀ l : List (List String),
+    allPairsOK tips l = true → l.Pairwise (fun a b => pairOK tips a b = true)
+  | [], _ => List.Pairwise.nil
+  | a :: r, h => by
+    simp only [allPairsOK, Bool.and_eq_true, List.all_eq_true] at h
+    exact List.Pairwise.cons h.1 (allPairsOK_pairwise tips r h.2)
+
+/-- In the result of the loop there are exactly as many inner branches as inner rows
+    (no bipartition is represented twice, none is missing). -/
+theorem inner_count (tips alltips : List String) (n : Nat) (sel : List Entry) (r : T)
+    (tipv : List (String × Rat)) (hAT : SubS alltips tips)
+    (hsel : selOK tips alltips sel = true)
+    (inv : LoopInv tips r (innerRows alltips n sel) tipv) :
+    ni r.splits = (innerRows alltips n sel).length := by
+  apply Nat.le_antisymm inv.cnt
+  -- the inner rows have pairwise different bipartitions
+  unfold selOK at hsel
+  simp only [Bool.and_eq_true] at hsel
+  have hpw := allPairsOK_pairwise tips _ hsel.2
+  have hnames : (innerRows alltips n sel).map (·.1) =
+      (sel.map (rowNames alltips)).filter (fun s => decide (2 ≤ s.length)) := by
+    unfold innerRows
+    rw [List.map_map, List.filter_map]
+    rfl
+  rw [← hnames, List.pairwise_map] at hpw
+  have hle := length_le_of_witness
+    (fun (p : List String × Rat × Rat) (s : SplitE) => s.tip = false ∧ SameSide tips s.below p.1)
+    (fun p q => pairOK tips p.1 q.1 = true ∧ SubS p.1 tips ∧ SubS q.1 tips)
+    (innerRows alltips n sel) (r.splits.filter (fun s => !s.tip))
+    (by
+      refine hpw.imp_of_mem ?_
+      intro p q hp hq h
+      refine ⟨h, ?_, ?_⟩
+      · obtain ⟨x, _, _, rfl⟩ := mem_innerRows'.1 hp
+        exact fun a ha => hAT a (List.mem_filter.1 ha).1
+      · obtain ⟨x, _, _, rfl⟩ := mem_innerRows'.1 hq
+        exact fun a ha => hAT a (List.mem_filter.1 ha).1)
+    (by
+      intro p hp
+      obtain ⟨s, hs, htip, hss, _, _⟩ := inv.j2 p hp
+      exact ⟨s, List.mem_filter.2 ⟨hs, by simp [htip]⟩, htip, hss⟩)
+    (by
+      intro p q s ⟨hpair, hpT, hqT⟩ ⟨_, h1⟩ ⟨_, h2⟩
+      -- both rows would be sides of the branch s: the same bipartition
+      have hsame : SameSide tips p.1 q.1 := by
+        -- symmetry and transitivity of SameSide through s.below
+        rcases h1 with h1 | h1 <;> rcases h2 with h2 | h2
+        · exact Or.inl fun a ha => (h1 a ha).symm.trans (h2 a ha)
+        · exact Or.inr fun a ha => (h1 a ha).symm.trans (h2 a ha)
+        · refine Or.inr fun a ha => ⟨fun hp hq => (h1 a ha).1 ((h2 a ha).2 hq) hp, fun hnq => ?_⟩
+          apply Classical.byContradiction
+          intro hnp
+          exact hnq ((h2 a ha).1 ((h1 a ha).2 hnp))
+        · refine Or.inl fun a ha => ⟨fun hp => ?_, fun hq => ?_⟩
+          · apply Classical.byContradiction
+            intro hnq
+            exact (h1 a ha).1 ((h2 a ha).2 hnq) hp
+          · apply Classical.byContradiction
+            intro hnp
+            exact (h2 a ha).1 ((h1 a ha).2 hnp) hq
+      obtain ⟨_, n1, n2⟩ := (pairOK_iff tips p.1 q.1).1 hpair
+      rcases hsame with h | h
+      · exact n1 ⟨fun a ha => (h a (hpT a ha)).1 ha, fun a ha => (h a (hqT a ha)).2 ha⟩
+      · exact n2 ⟨fun a ha hq => (h a (hpT a ha)).1 ha hq, fun a ha => by
+          by_cases hp : a ∈ p.1
+          · exact Or.inl hp
+          · exact Or.inr (Classical.byContradiction fun hnq => hp ((h a ha).2 hnq))⟩)
+  exact hle
 
 end Gotree.C09
